@@ -1412,6 +1412,14 @@ func forwardedHelper(ret *ssa.Return) *ssa.Function {
 	var call *ssa.Call
 	for k, rs := range ret.Results {
 		var c *ssa.Call
+		// a function with defers spills its results into cells before running them: the value stored last
+		if ld, isLoad := rs.(*ssa.UnOp); isLoad && ld.Op == token.MUL {
+			if cell, isCell := ld.X.(*ssa.Alloc); isCell {
+				if v := activeProg.cellValueAt(cell, ret); v != nil {
+					rs = v
+				}
+			}
+		}
 		switch x := rs.(type) {
 		case *ssa.Call:
 			if len(ret.Results) != 1 {
@@ -1456,8 +1464,28 @@ func nothingBetween(call *ssa.Call, ret *ssa.Return) bool {
 		if !seen || in == ssa.Instruction(ret) {
 			continue
 		}
-		switch in.(type) {
+		switch x := in.(type) {
 		case *ssa.Extract, *ssa.Convert, *ssa.ChangeType, *ssa.MakeInterface, *ssa.ChangeInterface, *ssa.DebugRef, *ssa.RunDefers:
+		case *ssa.Store: // the call's result spilled into a result cell
+			if _, isCell := x.Addr.(*ssa.Alloc); !isCell {
+				return false
+			}
+			switch v := x.Val.(type) {
+			case *ssa.Call:
+				if v != call {
+					return false
+				}
+			case *ssa.Extract:
+				if v.Tuple != ssa.Value(call) {
+					return false
+				}
+			default:
+				return false
+			}
+		case *ssa.UnOp: // … and loaded back for the return
+			if _, isCell := x.X.(*ssa.Alloc); !isCell || x.Op != token.MUL {
+				return false
+			}
 		default:
 			return false
 		}
